@@ -910,6 +910,10 @@ zap_links(vbi_page *pg, int row)
 	buffer[j + 1] = ' ';
 	buffer[j + 2] = 0;
 
+	/* keyword() reports links only, cells in front of a link and
+	   between links must not inherit what the stack held. */
+	memset (link, 0, sizeof (link));
+
 	/* Mind the buffer holds only j characters, fewer than COLUMNS
 	   when the row contains double width characters. */
 	for (i = 0, k = j; i < k; i += n) { 
